@@ -29,13 +29,14 @@ RULE = ("histories: (i) exhaustive single operations (clear, push_back, pop_back
         "compare(pos1,n1,str,pos2,n2), copy, replace on every content of length <= 3 x needle of length <= 2 x "
         "pos in {0..len+1, npos}; compare/compare5/search again on every pair of contents of length <= 2 over the full "
         "alphabet {a, b, top-bit character (negative for char/wchar_t), NUL} for all five character types. Added by the review: every iterator-taking "
-        "overload (append / assign / constructor) with pointers, etl::reverse_iterator, a forward-only and an input-only iterator; 23 mutator forms and 7 "
+        "overload (append / assign / constructor) with pointers, etl::reverse_iterator, a forward-only and a genuine single-pass input iterator; 23 mutator forms and 7 "
         "replace forms whose argument is the string itself or a pointer / C string / view / substring / iterator range of it (contents of length <= 2 "
         "exhaustively, lengths 3 and 5 on seven configurations, random histories); every default argument written in the header (qdz_, qdc_, erd, er1, subd, "
         "sub1, ass2, avs2, zss2, zvs2, iss3, ivs3, c4s, c4v, replace4, copy2); const members on random contents of length 4..12 with needles cut out of the "
         "content (8 configurations); needle sets containing NUL with positions around size(); right-hand sides of another capacity (compare/relational up to 31 "
         "characters, operator+ / += with capacity 5); operator=(Char), assign(str), operator=(view), operator+=(view), (count, ch) constructor, reverse iteration. "
-        "Spec leg outside std's domain: 'contract' where the documented precondition is false, else 'na'. non-trivial = distinct case whose impl leg contains a non-empty state")
+        "Long strings (60..capacity characters at capacities 254/255/256) through the copying/filling/rotating/scanning members; iterator-based replace with pairs "
+        "that are not a range of the string. Spec leg outside std's domain: 'contract' where the documented precondition is false, else 'na'. non-trivial = distinct case whose impl leg contains a non-empty state")
 
 TRUSTED_BASE = ["reference leg: libstdc++ 12 std::basic_string on the same histories"]
 ASSUMPTIONS = ["LP64: size_t is 64 bits", "char signed 8-bit, wchar_t signed 32-bit (x86-64 Linux)",
@@ -122,8 +123,8 @@ def gen_queries(ck, caps, out, rng, light=False, p5=0.3):
                         out.append(f"replace {ck} {cap} {L(l)} {p} {k} {L(n)}")
                         if light:
                             continue
-                        if p != NPOS and k != NPOS and p <= k <= len(l):
-                            # iterator-based overloads: [p, k) is a valid range of the string
+                        if p != NPOS and k != NPOS and p <= cap + 1 and k <= cap + 1:
+                            # iterator-based overloads: [p, k) a range of the string, or not (last < first, beyond end())
                             out.append(f"replacei {ck} {cap} {L(l)} {p} {k} {L(n)}")
                             out.append(f"replaceiz {ck} {cap} {L(l)} {p} {k} {L(n)}")
                             out.append(f"replaceip {ck} {cap} {L(l)} {p} {k} {L(n + [al[0]])} {rng.randint(0, len(n) + 1)}")
@@ -152,7 +153,7 @@ def gen_replace_self(ck, caps, out):
                     for off in range(0, n + 2):
                         for c2 in [0, 1, 2, 3, NPOS]:
                             out.append(f"replace5s {ck} {cap} {L(l)} {p} {k} {off} {c2}")
-                    if p != NPOS and k != NPOS and p <= k <= n:
+                    if p != NPOS and k != NPOS and p <= cap + 1 and k <= cap + 1:
                         out.append(f"replaceis {ck} {cap} {L(l)} {p} {k}")
                         for off in range(0, n + 1):
                             out.append(f"replaceizs {ck} {cap} {L(l)} {p} {k} {off}")
@@ -703,6 +704,8 @@ def gen(tier, rng):
             out.append(hist("c", cap, [f"af {cap} 97", tail, "af 1 100"]))
     for ck, cap in [("c", 7), ("c", 16), ("w", 15), ("w", 16), ("u", 3), ("s", 15), ("b", 16), ("c", 255)]:
         gen_stale(ck, cap, out)
+    for ck, cap, cnt, q in [("c", 254, 6, False), ("c", 255, 12, True), ("c", 256, 6, False), ("w", 256, 6, False)]:
+        gen_long(ck, cap, out, rng, cnt if quick else cnt * 15, q)
     gen_replace_self("c", [7, 16] if quick else [3, 7, 15, 16, 255], out)
     gen_replace_self("w", [3] if quick else [3, 16], out)
     if not quick:
@@ -735,6 +738,55 @@ def gen(tier, rng):
                     out.append(hist(ck, cap, pre + [f"{o} {L(src)}"]))
     add_raw(out, rng, 0.2 if quick else 0.5)
     return out
+
+
+def gen_long(ck, cap, out, rng, count, queries):
+    """LONG strings (60 .. capacity characters) at the big capacities: every copying / filling / rotating / scanning
+    loop of the library runs over more than a few characters (a chunked or unrolled loop that loses a remainder, a size
+    field that is too narrow, an 8-bit index would not show on the short strings of the other blocks)"""
+    al = ALPHA[ck]
+    def text(n):
+        return [al[0] + (i * 7 + i // 5) % 23 if rng.random() < 0.9 else rng.choice(al) for i in range(n)]
+    for _ in range(count):
+        n = rng.randint(60, cap)
+        l = text(n)
+        pre = [f"asp {L(l)} {n}"]
+        room = cap - n
+        src = text(rng.randint(1, max(1, min(room, 70))))
+        i = rng.randint(0, n)
+        k = rng.randint(0, len(src))
+        tails = [f"ip {i} {L(src)} {k}", f"ap {L(src)} {k}", f"acs {L([c for c in src if c != 0])}", f"ast {L(src[:cap])}",
+                 f"ar {L(src)}", f"arr {L(src)}", f"arf {L(src)}", f"er {i} {rng.randint(0, n)}", f"erng {i} {rng.randint(0, n - i)}",
+                 f"sub {i} {rng.randint(0, n)}", f"rs {rng.randint(0, cap)} {al[1]}", f"sw {L(text(rng.randint(60, cap)))}",
+                 f"fer {l[rng.randrange(n)]}", "fei 1", f"zr {L(text(rng.randint(60, cap)))}", f"zcs {L([c for c in text(rng.randint(60, cap)) if c != 0])}",
+                 f"aps {rng.randint(0, n)} {rng.randint(0, min(n, max(room, 0)))}", f"ips {i} {rng.randint(0, n)} {rng.randint(0, min(n, max(room, 0)))}",
+                 f"asps {rng.randint(0, n)} {rng.randint(0, n)}", f"if {i} {rng.randint(0, min(3, max(room, 0)))} {al[1]}", "pop", f"erp {min(i, n - 1)}"]
+        for t in rng.sample(tails, 6):
+            out.append(hist(ck, cap, pre + [t]))
+        if queries:
+            a = rng.randint(0, n - 1)
+            nd = l[a:a + rng.randint(1, 40)]
+            if rng.random() < 0.3:
+                nd[-1] = al[2]
+            ps = [0, a, a + 1, n - len(nd), n - 1, n, n + 1, NPOS]
+            fam = rng.choice(FAMS)
+            for pp in rng.sample(ps, 3):
+                pp = max(pp, 0)
+                out.append(f"q_{fam} {ck} {cap} {L(l)} {L(nd)} {pp}")
+                out.append(f"sz_{fam} {ck} {cap} {L(l)} {L([c for c in nd if c != 0])} {pp}")
+                out.append(f"sc_{fam} {ck} {cap} {L(l)} {rng.choice(l)} {pp}")
+            m = l[:]
+            m[rng.randrange(n)] = al[2]
+            out.append(f"cmp_1 {ck} {cap} {L(l)} {L(m)}")
+            out.append(f"cmp_5 {ck} {cap} {L(l)} {rng.randint(0, n)} {rng.choice([NPOS, rng.randint(0, n)])} {L(m)} {rng.randint(0, n)} {rng.choice([NPOS, rng.randint(0, n)])}")
+            out.append(f"rel_sz {ck} {cap} {L(l)} {L([c for c in m if c != 0])}")
+            out.append(f"copy_m {ck} {cap} {L(l)} {rng.randint(0, n + 1)} {rng.randint(0, n + 1)}")
+            out.append(f"pfx_v {ck} {cap} {L(l)} {L(l[:rng.randint(0, n)])}")
+            out.append(f"pfx_v {ck} {cap} {L(l)} {L(l[rng.randint(0, n):])}")
+            out.append(f"riter {ck} {cap} {L(l)}")
+            x = text(rng.randint(0, 70))
+            out.append(f"replace {ck} {cap} {L(l)} {rng.randint(0, n)} {len(x)} {L(x[:cap])}")
+            out.append(f"replaceps {ck} {cap} {L(l)} {rng.randint(0, n)} {rng.randint(0, n)} 0 {rng.randint(0, n)}")
 
 
 def gen_stale(ck, cap, out):
